@@ -294,6 +294,32 @@ def r_root_list(repo, rep, R='R4.2'):
     rep.check(not dup, R, w, mod.rel + ':root-list:unique', 'no root category is listed twice', 'listed twice: %s' % dup)
 
 
+def r_unary_table(repo, rep, R='R4.3'):
+    """the shipped unary table stays inside what the labels can say: an adverbial input is labelled ADV0 / ADV1 / ADV2 by
+    its number of missing arguments, so the table lists no adverbial input that misses more than two (the labelling
+    function's last arm would call it ADV0); every input is adnominal or adverbial (anything else is labelled OTHER, which
+    names no shape)"""
+    from .. import datafiles
+    rel = 'depccg/models/unary_rules.ja.jsonnet'
+    data = datafiles.load_jsonnet(repo, rel)
+    rows = data.get('unary_rules') if isinstance(data, dict) else None
+    if not isinstance(rows, list) or not rows:
+        raise AnalysisError('%s: no unary_rules list' % rel)
+    bad = []
+    for row in rows:
+        lhs = datafiles.parse_cat(row[0])
+        pairs = dict(datafiles.feature_pairs(datafiles.result_atom(lhs)) or [])
+        k = datafiles.nargs(lhs)
+        if pairs.get('mod') == 'adv' and k > 2:
+            bad.append('%s misses %d arguments and is labelled ADV0' % (row[0], k))
+        elif pairs.get('mod') not in ('adv', 'adn'):
+            bad.append('%s is neither adnominal nor adverbial (labelled OTHER)' % row[0])
+    rep.check(not bad, R, '%s:1 unary_rules' % rel, rel + ':label-domain',
+              'all %d inputs of the shipped unary table are adnominal, or adverbial with at most two missing arguments' % len(rows),
+              'the shipped unary table has inputs the labels cannot describe: %s' % '; '.join(bad[:3]))
+    return len(rows)
+
+
 def check(repo, rep, tier):
     mod = repo.module(rg.JA)
     rep.rule('R4.1', 'schema conformance of the 10 unification-based combinators incl. slash preservation, modifier shortcut, labels, head_is_left=False, dispatch')
@@ -317,6 +343,7 @@ def check(repo, rep, tier):
     ru.r_instantiation(repo, rep, 'R4.1')
     c06.r_feature_relations(repo, rep, 'R4.1')
     r_unary_labels(repo, rep)
+    rep.floor('rows of the shipped unary table', r_unary_table(repo, rep), 15)
     r_root_list(repo, rep)
     from .c13 import r_xor
     r_xor(repo.module('depccg/cat.py'), rep, 'R4.1')     # scan() compares a twice-bound variable's two values with ^
